@@ -66,7 +66,7 @@ def _structure(draw):
             "cbin_in": draw(st.booleans()), "post_check": draw(st.booleans()), "recon_compress": draw(st.booleans()),
             # a second split by the SAME converter object: forced over the first output, or into new folders (extra=...)
             "rerun": draw(st.sampled_from([None, None, "overwrite", "extra"])),
-            "window2": 12 * draw(st.integers(100, 400 if big else 1700))}
+            "window2": 12 * draw(st.integers(100, 400 if big else 1700)), "stem": draw(st.sampled_from(np2.STEMS))}
 
 
 def strategy(tier):
@@ -117,7 +117,7 @@ def run_case(case, ctx):
         ctx.label("interleaved_shanks")
     ctx.label("shanks_%d" % len(shanks), "windows_%s" % ("1" if spec["ns"] <= window else "2+"))
     with rec.scratch_dir(ctx) as root:
-        ap = np2.make_session(root, spec, D, cbin=opts["cbin_in"], chunk=2000)
+        ap = np2.make_session(root, spec, D, cbin=opts["cbin_in"], chunk=2000, stem=case.get("stem"))
         orig_meta = ctx.call("C03.read_meta", sg.read_meta_data, ap.with_suffix(".meta"))
         if orig_meta is ctx.CRASH:
             return
